@@ -109,7 +109,45 @@ def evaluate(plan, ctx):
     return Result(nt, ev)
 
 
-SUBCHECKS = [SubCheck("replay", strategy, evaluate, quick=3000, thorough=25000)]
+# ---- thorough tier only: an offline simulation large enough for the Simulator to split the test rows into chunks (the
+# shared distance list is limited to 1 GB: 10 000 training rows x 12 600 test rows) ------------------------------------
+
+@st.composite
+def chunked_plan_st(draw, tier):
+    return {"k": draw(st.integers(3, 7)), "radius": draw(st.sampled_from([2, 3, 5])),
+            "m1": draw(st.sampled_from([7919, 104729, 1299709])), "m2": draw(st.sampled_from([15485863, 32452843])),
+            "seed": draw(st.integers(0, 2 ** 16)), "is_quick": draw(st.booleans())}
+
+
+def chunked_strategy(tier, ctx):
+    return chunked_plan_st(tier)
+
+
+def evaluate_chunked(params, ctx):
+    n_train, n_test = 10000, 12600
+    n = n_train + n_test
+    arms = [1, 2, 3]
+    # data as a pure function of the row index and the drawn multipliers (no generator of our own)
+    contexts = [[(i * params["m1"]) % 101, (i * params["m2"]) % 103] for i in range(n)]
+    decisions = [arms[(i * 31 + (i // 7)) % 3] for i in range(n)]
+    rewards = [((i * 17) % 5) for i in range(n)]
+    bandits = [{"name": "b0", "config": {"arms": arms, "lp": ["EpsilonGreedy", {"epsilon": 0}],
+                                        "np": ["KNearest", {"k": params["k"], "metric": "euclidean"}],
+                                        "seed": params["seed"], "n_jobs": 1, "backend": None, "arm_kind": "int"}},
+               {"name": "b1", "config": {"arms": arms, "lp": ["UCB1", {"alpha": 1}],
+                                        "np": ["Radius", {"radius": params["radius"], "metric": "euclidean"}],
+                                        "seed": params["seed"], "n_jobs": 1, "backend": None, "arm_kind": "int"}}]
+    plan = {"scaler": None, "arms": arms, "bandits": bandits, "decisions": decisions, "rewards": rewards,
+            "contexts": contexts, "test_size": n_test / float(n), "n_test": n_test, "exact_count": False,
+            "is_ordered": True, "batch_size": 0, "is_quick": params["is_quick"], "seed": params["seed"],
+            "binarized": False, "data_container": "ndarray"}
+    r = evaluate(plan, ctx)
+    return Result(True, list(r.events) + ["chunked_offline_simulation"])
+
+
+SUBCHECKS = [SubCheck("replay", strategy, evaluate, quick=3000, thorough=25000),
+             SubCheck("chunked", chunked_strategy, evaluate_chunked, quick=0, thorough=2, workers=1, thorough_s=1500,
+                      shrink=False)]
 KNOWN = {}
 
 MANIFEST = {
